@@ -19,6 +19,7 @@ func init() {
 }
 
 func runC06(c *Ctx) {
+	defer checkConfigGetters(c, "C06.R7", "GetTokenEntropy", "GetGlobalSecret", "GetRotatedGlobalSecrets", "GetHMACHasher")
 	c06R1(c)
 	c06Strategies(c)
 	c06Validate(c)
